@@ -20,6 +20,7 @@ package main
 import (
 	"fmt"
 	"math"
+	"strconv"
 
 	"github.com/thanos-io/thanos/verifharness/hlib"
 )
@@ -59,6 +60,9 @@ func totalsOf(chks []dchunk) totals {
 }
 
 func execC38(c *hlib.Ctx, tok []string) string {
+	if len(tok) > 0 && tok[0] == "o.block" {
+		return execBlock(c, tok, "C38")
+	}
 	out, cs := execDs(tok)
 	if cs == nil || len(tok) == 0 || tok[0] != "ds.aggr" {
 		return out
@@ -79,17 +83,25 @@ func execC38(c *hlib.Ctx, tok []string) string {
 		c.Violation(class, fmt.Sprintf("re-downsampling %d level-1 chunk(s) with numChunks=%d: %s", len(cs.l1), cs.nc2, cs.l2err))
 		return out
 	}
-	// raw totals
+	checkTotals(c, cs.ts, cs.vs, cs.l1, cs.l2)
+	if (len(cs.l1) == 0) != (len(cs.l2) == 0) {
+		c.Violation("aggr-error", "level 2 is empty but level 1 is not (or the converse)")
+	}
+	return out
+}
+
+// checkTotals: Σcount, Σsum, min, max of level 2 = those of level 1 = those of the raw data.
+func checkTotals(c *hlib.Ctx, ts []int64, vs []float64, l1, l2 []dchunk) {
 	raw := totals{min: math.Inf(1), max: math.Inf(-1)}
-	for i := range cs.ts {
-		if v := cs.vs[i]; !math.IsNaN(v) {
+	for i := range ts {
+		if v := vs[i]; !math.IsNaN(v) {
 			raw.count++
 			raw.sum += v
 			raw.min = math.Min(raw.min, v)
 			raw.max = math.Max(raw.max, v)
 		}
 	}
-	t1, t2 := totalsOf(cs.l1), totalsOf(cs.l2)
+	t1, t2 := totalsOf(l1), totalsOf(l2)
 	if t2.count != t1.count || t2.count != raw.count {
 		c.Violation("total-count", fmt.Sprintf("Σcount: raw %v, level 1 %v, level 2 %v", raw.count, t1.count, t2.count))
 	}
@@ -103,7 +115,7 @@ func execC38(c *hlib.Ctx, tok []string) string {
 		c.Violation("total-max", fmt.Sprintf("max: raw %v, level 1 %v, level 2 %v", raw.max, t1.max, t2.max))
 	}
 	var flat [4][]pt
-	checkChunkShape(c, cs.l2, &flat)
+	checkChunkShape(c, l2, &flat)
 	for i, p := range flat[0] {
 		if i > 0 && flat[0][i-1].t >= p.t {
 			c.Violation("timestamps-not-increasing", fmt.Sprintf("level-2 timestamp %d after %d", p.t, flat[0][i-1].t))
@@ -114,18 +126,42 @@ func execC38(c *hlib.Ctx, tok []string) string {
 			break
 		}
 	}
-	if (len(cs.l1) == 0) != (len(cs.l2) == 0) {
-		c.Violation("aggr-error", "level 2 is empty but level 1 is not (or the converse)")
-	}
-	return out
 }
 
 func genC38(c *hlib.Ctx) {
 	rr := c.R
-	n := c.N(1200, 20000)
+	// block level: Downsample() raw -> 5m -> 1h on real blocks
+	for _, n := range []int{2000, 33500} {
+		c.Count("block:" + strconv.Itoa(n))
+		c.Do(fmt.Sprintf("o.block %d %d %s", rr.Intn(1<<30), n, []string{"gauge", "counter"}[rr.Intn(2)]), true)
+	}
+	for i := 0; i < c.N(0, 6); i++ {
+		n := []int{70000, 33000 + rr.Intn(3000), 5000 + rr.Intn(60000)}[i%3]
+		c.Count("block:thorough")
+		c.Do(fmt.Sprintf("o.block %d %d %s", rr.Intn(1<<30), n, []string{"gauge", "counter"}[rr.Intn(2)]), true)
+	}
+	// both levels through the real entry points DownsampleRaw and downsampleAggr with their own heuristics
+	lpairs := [][2]int64{{300000, 3600000}, {50, 100}, {1000, 5000}, {10, 120}}
+	for i := 0; i < c.N(40, 600); i++ {
+		p := lpairs[rr.Intn(len(lpairs))]
+		ts, vals := genLongSeries(c, p[0], rr.Chance(1, 3))
+		nc1 := tccRaw(ts, p[0])
+		c.Count("long-auto:l1chunks:" + bucket(nc1))
+		field := samplesField(ts, vals)
+		_, vs, _ := parseSamples(field)
+		metas, _ := rawLevel("man", p[0], nc1, ts, vs)
+		_, acs := decode(metas)
+		_, _, nc2 := autoNC2(metas, acs, p[0], p[1])
+		if nc2 > len(acs) {
+			continue
+		}
+		c.Do(fmt.Sprintf("ds.aggr auto %d %d %d %d %s", p[0], nc1, p[1], nc2, field), true)
+	}
+	defer func() { c.Dist["entry:DownsampleRaw(level 1)"] = entryDownsampleRaw }()
+	n := c.N(1200, 12000)
 	pairs := [][2]int64{{300000, 3600000}, {300000, 3600000}, {300000, 3600000}, {50, 100}, {10, 120}, {1000, 5000}, {7, 21}, {50, 50}}
 	hangs := 0 // calls that did not return cost a full deadline each: stop provoking them after two
-	childCases, maxChild := 0, c.N(12, 150) // numChunks > len runs in a child process first: bounded
+	childCases, maxChild := 0, c.N(12, 60) // numChunks > len runs in a child process first: bounded
 	for i := 0; i < n; i++ {
 		p := pairs[rr.Intn(len(pairs))]
 		r1, r2 := p[0], p[1]
